@@ -28,6 +28,10 @@ BOUNDS = {
         "flow_control": "results_queue_maxsize 1 (int) and 0.5 (float -> 1 with 2 workers), functor sleeping 0.4 s "
                         "on the first / middle item, |data| 4..5, chunk 1..2, workers 2, both imap variants",
         "delayed_feeder": "feeder start delayed by 0.3 s with an empty and a non-empty input",
+        "retire_at_end_then_exit": "FactoryFunctorPool, 2 workers, quota 1, 2 chunks (every worker retires exactly at "
+                                   "the end of the call), the wid of a retiring worker posted 0.5 s late (after the "
+                                   "replace thread was stopped), work queue bound in {1, 0.5, 1.0, None, 2}; then the "
+                                   "context is left",
         "plain": "all |data| 0..5 x chunk 1..3 x {imap, imap_unordered} with 1 worker, work queue bound 1 and "
                  "results queue bound 1 (tightest queues)",
         "random": "10 random timing patterns",
@@ -58,6 +62,10 @@ def _cfg(pool, workers, wq, rq, quota=None, **kw):
 def cases(tier, seed):
     quick = tier != "thorough"
     # slow exhaustion (DESIGN §7 F2) ------------------------------------------------------------------------------
+    # the native reproducer of §7: yield 1; yield 2; sleep(1.0)
+    for ordered in (True, False):
+        yield {"kind": "slow-exhaustion", "cfg": _cfg("functor", 2, 1.0, None),
+               "calls": [{"ordered": ordered, "n": 2, "cs": 1, "lazy": True, "end_delay": 1.0}]}
     delays = [0.4] if quick else [0.05, 0.4, 1.0]
     k = 0
     for d in delays:
@@ -67,10 +75,6 @@ def cases(tier, seed):
                 k += 1
                 yield {"kind": "slow-exhaustion", "cfg": _cfg(pool, w, 1.0, rq, 1 if pool == "factory" else None),
                        "calls": [{"ordered": ordered, "n": n, "cs": cs, "lazy": True, "end_delay": d}]}
-    # the native reproducer of §7: yield 1; yield 2; sleep(1.0)
-    for ordered in (True, False):
-        yield {"kind": "slow-exhaustion", "cfg": _cfg("functor", 2, 1.0, None),
-               "calls": [{"ordered": ordered, "n": 2, "cs": 1, "lazy": True, "end_delay": 1.0}]}
     # slow items --------------------------------------------------------------------------------------------------
     for n in ((3,) if quick else (1, 2, 3, 4)):
         for pos in range(n):
@@ -88,13 +92,20 @@ def cases(tier, seed):
                            "cfg": _cfg("functor", 2, 1.0, rq, slow_value=10 + slow_pos, slow_s=0.4),
                            "calls": [{"ordered": ordered, "n": n, "cs": cs}]}
     yield {"kind": "flow-control-slow-item",
-           "cfg": _cfg("factory", 2, 1, 1, 2, slow_value=10, slow_s=0.4),
+           "cfg": _cfg("factory", 2, 1.0, 1, 2, slow_value=10, slow_s=0.4),
            "calls": [{"ordered": True, "n": 5, "cs": 1, "lazy": True, "end_delay": 0.3}]}
     # delayed feeder ----------------------------------------------------------------------------------------------
     for d in ([0.3] if quick else [0.1, 0.3, 0.8]):
         for n, ordered in itertools.product((0, 3), (True, False)):
             yield {"kind": "delayed-feeder", "cfg": _cfg("functor", 2, 1.0, None),
                    "calls": [{"ordered": ordered, "n": n, "cs": 1, "feeder_delay": d, "settle": 0.3}]}
+    # all workers retire exactly at the end of the call and post their wid late (after the replace thread has been
+    # stopped): the context must still be left, whatever the work queue bound -------------------------------------
+    for wq in (1, 0.5, 1.0, None, 2):
+        for w, q in (((2, 1),) if quick else ((2, 1), (2, 2), (3, 1))):
+            yield {"kind": "retire-at-end-then-exit",
+                   "cfg": _cfg("factory", w, wq, None, q, wid_delay=0.5, wait_ready=True, item_s=0.05),
+                   "calls": [{"ordered": True, "n": w * q, "cs": 1}]}
     # tight queues ------------------------------------------------------------------------------------------------
     for w in ((1,) if quick else (1, 2)):
         for n, cs, ordered in itertools.product(range(0, 6), (1, 2, 3), (True, False)):
@@ -104,8 +115,11 @@ def cases(tier, seed):
     for _ in range(10 if quick else 150):
         n = rng.randint(1, 6)
         pool = rng.choice(["functor", "factory"])
+        # (a finite quota together with a work queue bound below the worker count is exercised by the dedicated
+        #  retire-at-end-then-exit scenario only)
         yield {"kind": "random-timing",
-               "cfg": _cfg(pool, rng.randint(1, 3), rng.choice([None, 1, 1.0, 2]), rng.choice([None, 1, 2]),
+               "cfg": _cfg(pool, rng.randint(1, 3), rng.choice([None, 1, 1.0, 2] if pool == "functor" else [None, 1.0]),
+                           rng.choice([None, 1, 2]),
                            rng.choice([1, 2, None]) if pool == "factory" else None,
                            slow_value=10 + rng.randrange(n), slow_s=rng.choice([0.0, 0.2, 0.5])),
                "calls": [{"ordered": rng.random() < 0.5, "n": n, "cs": rng.randint(1, 3), "lazy": True,
